@@ -217,6 +217,25 @@ def run_qr(c, u):
             if not (np.allclose(Qo.data, Qf.data, rtol=1e-12, atol=1e-13) and np.allclose(Ro.data, Rf.data, rtol=1e-12, atol=1e-13)):
                 c.fail('C08|%s|out= buffers holding an earlier result|%s' % (name, 'square' if M == N else ('tall' if M > N else 'wide')), case,
                        {'max_dQ': float(np.abs(Qo.data - Qf.data).max()), 'max_dR': float(np.abs(Ro.data - Rf.data).max())})
+    # homogeneity: data scaled by 2^-60 (qr_full has no threshold; qr with its documented rank threshold scaled as well)
+    D = DMENU[tier][-1]
+    A = np.zeros((D, P, M, N))
+    A[0] = np.array(bases)
+    A[1:] = fills((M, N), D, P, M + 2 * N + D)
+    sc = 2.0 ** -60
+    for name, f, kw in [('qr', UTPM.qr, {'epsilon': 1e-14 * sc})] + ([('qr_full', UTPM.qr_full, {})] if M >= N else []):
+        case = {'fn': name, 'D': D, 'scale': '2^-60'}
+        c.out['evals'] += 1
+        c.out['keys'] += ['%s|scaled|%d|%d|%d|%d' % (name, M, N, D, u['lo'])]
+        try:
+            Q1, R1 = f(UTPM(A.copy()))
+            Q2, R2 = f(UTPM(A * sc), **kw)
+        except Exception as ex:
+            c.fail('C08|%s|scaled raises' % name, case, {'error': '%s: %s' % (type(ex).__name__, str(ex)[:160])})
+            continue
+        if not (np.allclose(Q2.data, Q1.data, rtol=1e-9, atol=1e-9) and np.allclose(R2.data / sc, R1.data, rtol=1e-9, atol=1e-9)):
+            c.fail('C08|%s|scaled data differs|%s' % (name, 'square' if M == N else ('tall' if M > N else 'wide')), case,
+                   {'max_dQ': float(np.abs(Q2.data - Q1.data).max()), 'max_dR': float(np.abs(R2.data / sc - R1.data).max())})
     c.out['samples'] = [{'factorization': 'qr', 'shape': [M, N], 'base_matrices_in_unit': P, 'example': bases[P // 2].tolist()}]
 
 
